@@ -284,12 +284,14 @@ def harness(cfg, ns):
             valid = SymBool(en.e - st.e > lift(PREC))
             if op == "add_zero":
                 ctx.assume(~valid)
-                try:
-                    c.add(target, Segment(st, en), newlab)
-                    obls.append(Obl("add_zero:zero-length-rejected", False, rz))
-                except ValueError:
-                    obls.append(Obl("add_zero:zero-length-rejected", True, rz))
-                obls.append(Obl("add_zero:state-unchanged", SymBool(same_state(snapshot(c), pre)), rz))
+                # for an annotator the continuum knows, and for a name it has never seen (a rejected add must not register it)
+                for tgt in (target, "never-seen-before"):
+                    try:
+                        c.add(tgt, Segment(st, en), newlab)
+                        obls.append(Obl("add_zero:zero-length-rejected", False, rz))
+                    except ValueError:
+                        obls.append(Obl("add_zero:zero-length-rejected", True, rz))
+                    obls.append(Obl("add_zero:state-unchanged" + ("" if tgt == target else "(annotator not known before)"), SymBool(same_state(snapshot(c), pre)), rz))
                 return obls
             ctx.assume(valid)
             for tgt in [target] + (["new"] if sum(sizes) <= 2 else []):
@@ -538,12 +540,13 @@ def replay(case):
             check(c, model, cats | ({newlab} if newlab else set()), "add")
         elif op == "add_zero":
             s, e = F(ex["as_"]), F(ex["ae"])
-            try:
-                c.add(ex["target"], Segment(s, e), newlab)
-                bad.append("zero-length segment accepted")
-            except ValueError:
-                pass
-            check(c, model, cats, "add_zero")
+            for tgt in (ex["target"], "never-seen-before"):
+                try:
+                    c.add(tgt, Segment(s, e), newlab)
+                    bad.append("zero-length segment accepted")
+                except ValueError:
+                    pass
+                check(c, model, cats, "add_zero" + ("" if tgt == ex["target"] else " (annotator not known before)"))
         elif op == "add_many":
             from pyannote.core import Annotation, Timeline
             s1, e1, s2, e2 = (F(ex[k]) for k in ("ts1", "te1", "ts2", "te2"))
